@@ -213,10 +213,11 @@ FilterOut(pr, vals, select) ==
 (* (harness/build.py): a body logs its call, optionally fails at scripted  *)
 (* invocation indices, and returns a canonical string per data output.     *)
 (***************************************************************************)
+\* tname = the name the wrapped function knows itself by (nodes sharing one function share it)
 BodyVal(nd, o, args) ==
-  CASE nd.fn = "id"    -> IF Len(args) > 0 THEN args[1][3] ELSE nd.name \o "." \o o
-    [] nd.fn = "const" -> nd.name \o "." \o o
-    [] OTHER           -> nd.name \o "." \o o \o "(" \o ArgText(args) \o ")"
+  CASE nd.fn = "id"    -> IF Len(args) > 0 THEN args[1][3] ELSE nd.tname \o "." \o o
+    [] nd.fn = "const" -> nd.tname \o "." \o o
+    [] OTHER           -> nd.tname \o "." \o o \o "(" \o ArgText(args) \o ")"
 
 \* the value of output j is labelled with the ORIGINAL output label (olabels), so that renaming an
 \* output changes only the name under which the value is wired
@@ -227,8 +228,11 @@ NodeOuts(nd, args) == [j \in 1..Len(nd.outputs) |->
 \* (where invocation indices depend on the schedule) decisions and failures are keyed by ARGUMENT
 \* values instead: dec_args = <<value, raw decision>> pairs, fail_args = values
 ArgVals(args) == {args[k][3] : k \in 1..Len(args)}
+\* pure gates (needed where caching must be transparent): the decision is a function of the
+\* arguments only -- the script entry selected by the length of the argument text
 RawDecision(nd, idx, args) ==
-  IF \E i \in 1..Len(nd.dec_args) : nd.dec_args[i][1] \in ArgVals(args)
+  IF nd.pure THEN nd.script[(Len(ArgText(args)) % Len(nd.script)) + 1]
+  ELSE IF \E i \in 1..Len(nd.dec_args) : nd.dec_args[i][1] \in ArgVals(args)
   THEN nd.dec_args[CHOOSE i \in 1..Len(nd.dec_args) :
            nd.dec_args[i][1] \in ArgVals(args) /\ \A j \in 1..(i-1) : nd.dec_args[j][1] \notin ArgVals(args)][2]
   ELSE nd.script[Min2(idx, Len(nd.script))]
@@ -263,7 +267,24 @@ RECURSIVE RunProg(_, _, _, _, _), Loop(_, _, _, _, _), StepFold(_, _, _, _, _, _
 \*   done   log of successful node completions [path, frame, node, step]
 \*   lists  list values: canonical text -> sequence of item texts (values are strings; a mapped
 \*          parameter needs the items of the list it receives)
-World0 == [ctr |-> EmptyMap, calls |-> <<>>, done |-> <<>>, lists |-> EmptyMap]
+\*   cache  the runner's cache backend: entries [key, outs, dec] from least to most recently used;
+\*          cap = capacity (0 = unbounded); hits = log of cache hits [path, key]
+World0 == [ctr |-> EmptyMap, calls |-> <<>>, done |-> <<>>, lists |-> EmptyMap, cache |-> <<>>, cap |-> 0, hits |-> <<>>]
+
+(***************************************************************************)
+(* Node result caching (runners/_shared/caching.py, cache.py).  An entry   *)
+(* is keyed by the node's function definition, its output names and the    *)
+(* arguments by ORIGINAL parameter name: it may be served only to a node   *)
+(* with the same definition, the same arguments and the same outputs.      *)
+(***************************************************************************)
+CacheKey(nd, args) == <<nd.fid, nd.outputs, CallArgs(args)>>
+CacheFind(cache, key) == {i \in 1..Len(cache) : cache[i].key = key}
+CacheTouch(cache, i) == SelectSeq([j \in 1..Len(cache) |-> IF j = i THEN [cache[j] EXCEPT !.key = <<"~moved">>] ELSE cache[j]],
+                                  LAMBDA e : e.key # <<"~moved">>) \o <<cache[i]>>
+CachePut(cache, cap, e) ==
+  LET rest == SelectSeq(cache, LAMBDA x : x.key # e.key)
+      all == Append(rest, e)
+  IN IF cap > 0 /\ Len(all) > cap THEN Tail(all) ELSE all
 
 (***************************************************************************)
 (* map_over (helpers.py generate_map_inputs, template_*.py map,            *)
@@ -342,6 +363,13 @@ ExecNode(pr, prefix, nd, args, st, step, mode) ==
         ELSE IF r.status = "paused" THEN
            [base EXCEPT !.status = "pause", !.w = r.w, !.pause = r.pause]
         ELSE [base EXCEPT !.status = "fail", !.w = r.w, !.err = r.err]
+  ELSE IF nd.cache /\ CacheFind(st.w.cache, CacheKey(nd, args)) # {} THEN
+     \* cache hit: the function is not invoked; outputs (and a gate's decision) come from the entry
+     LET i == CHOOSE i \in CacheFind(st.w.cache, CacheKey(nd, args)) : TRUE
+         e == st.w.cache[i]
+     IN [base EXCEPT !.outs = e.outs, !.dec = e.dec,
+                     !.w = [st.w EXCEPT !.cache = CacheTouch(st.w.cache, i),
+                                        !.hits = Append(st.w.hits, [path |-> path, step |-> step])]]
   ELSE IF IsIntr(nd) /\ (\A j \in 1..nd.ndata : nd.outputs[j] \in DOMAIN st.vals) /\ ~Ran(st, nd.name) THEN
      \* resume path: the answers are already in the state; the handler is not invoked
      [base EXCEPT !.outs = [j \in 1..Len(nd.outputs) |->
@@ -357,8 +385,13 @@ ExecNode(pr, prefix, nd, args, st, step, mode) ==
      ELSE [base EXCEPT !.outs = [j \in 1..Len(nd.outputs) |->
                              <<nd.outputs[j], IF j <= nd.ndata THEN "ans." \o nd.name \o "." \o nd.outputs[j] ELSE Sent>>]]
   ELSE IF IsGate(nd) THEN
-     [base EXCEPT !.outs = NodeOuts(nd, args), !.dec = Decide(nd, RawDecision(nd, idx, args))]
-  ELSE [base EXCEPT !.outs = NodeOuts(nd, args)]
+     LET d == Decide(nd, RawDecision(nd, idx, args))
+         e == [key |-> CacheKey(nd, args), outs |-> NodeOuts(nd, args), dec |-> d]
+     IN [base EXCEPT !.outs = NodeOuts(nd, args), !.dec = d,
+                     !.w = IF nd.cache THEN [w1 EXCEPT !.cache = CachePut(w1.cache, w1.cap, e)] ELSE w1]
+  ELSE LET e == [key |-> CacheKey(nd, args), outs |-> NodeOuts(nd, args), dec |-> NoDec]
+       IN [base EXCEPT !.outs = NodeOuts(nd, args),
+                       !.w = IF nd.cache THEN [w1 EXCEPT !.cache = CachePut(w1.cache, w1.cap, e)] ELSE w1]
 
 \* acc = [st, first, err, pause]; snap = state at the start of the step.
 \* first \in {"none", "fail", "pause"}: kind of the first non-successful node in LIST order
